@@ -73,6 +73,9 @@ func (mm *MMapRWManager) WriteAt(b []byte, off int64) (n int, err error) {
 func (mm *MMapRWManager) ReadAt(b []byte, off int64) (n int, err error) {
 	if mm.m == nil {
 		return 0, ErrUnmappedMemory
+	} else if len(b) == 0 && off == int64(len(mm.m)) {
+		// an empty field (e.g. an empty value) of a record that ends exactly at the end of the file
+		return 0, nil
 	} else if off >= int64(len(mm.m)) || off < 0 {
 		return 0, ErrIndexOutOfBound
 	}
